@@ -38,13 +38,8 @@ LGC = 'mitxgraders.listgrader.ListGrader'
 
 def check(ctx):
     idx = ctx.index
-    d1_ordered(ctx, idx)
-    d2_unordered(ctx, idx)
-    d3_grouping(ctx, idx)
-    d4_best(ctx, idx)
-    d5_zeroing(ctx, idx)
-    d6_order(ctx, idx)
-    d7_solver(ctx, idx)
+    for fn in (d1_ordered, d2_unordered, d3_grouping, d4_best, d5_zeroing, d6_order, d7_solver):
+        cm.guarded(ctx, fn, idx)
 
 
 def _config_sub(expr, key):
@@ -185,6 +180,10 @@ def d2_unordered(ctx, idx):
             raise AnalysisError('find_optimal_order: parameters changed: %s' % fi.params)
         # --- result matrix
         mats = [(n, v) for n, v in lib.local_env(fi.node).items() if isinstance(v, ast.ListComp) and isinstance(v.elt, ast.ListComp)]
+        for n_ in sorted(lib.local_env(fi.node)):
+            acc = cm.accumulated_comp(fi, n_)
+            if acc is not None and isinstance(acc.elt, ast.ListComp):
+                mats.append((n_, acc))
         if len(mats) != 1:
             raise AnalysisError('find_optimal_order: expected one nested list comprehension (result matrix), found %d' % len(mats))
         mname, outer = mats[0]
@@ -309,21 +308,21 @@ def d2_unordered(ctx, idx):
         if not ex.nest or len(ex.nest) != 2:
             r.undecided(construct, 'result loop nest not recognised', comp.loc)
         else:
-            outer_var = ex.nest[0].target.id
-            fwd = all(cm.is_call_to(l.iter, 'range', 1) for l in ex.nest)
+            outer_var = ex.nest[0][0]
+            fwd = all(cm.is_call_to(it_, 'range', 1) for v_, it_, n_ in ex.nest)
             if not fwd:
-                r.undecided(construct, 'result loops do not run over range(k)', lib.loc(comp, ex.nest[0]))
+                r.undecided(construct, 'result loops do not run over range(k)', lib.loc(comp, ex.nest[0][2]))
             elif outer_var == ex.row_idx.id and ex.emit_kind == 'append':
-                r.ok(construct, 'outer loop over rows, pairs appended: increasing row order', lib.loc(comp, ex.nest[0]))
+                r.ok(construct, 'outer loop over rows, pairs appended: increasing row order', lib.loc(comp, ex.nest[0][2]))
             elif outer_var == ex.col_idx.id:
                 r.violation(construct, 'the outer result loop runs over columns: pairs come back sorted by answer, so find_optimal_order '
-                            'reports the k-th pair in box k although it grades another input', lib.loc(comp, ex.nest[0]),
+                            'reports the k-th pair in box k although it grades another input', lib.loc(comp, ex.nest[0][2]),
                             expected='for row: for col:', found='for col: for row:')
             elif ex.emit_kind == 'prepend':
                 r.violation(construct, 'pairs are inserted at the front: they come back in decreasing row order, so results are reported '
-                            'in reversed boxes', lib.loc(comp, ex.emit_stmt))
+                            'in reversed boxes', lib.loc(comp, ex.emit_node))
             else:
-                r.undecided(construct, 'emission `%s` not recognised' % short(ex.emit_stmt), lib.loc(comp, ex.emit_stmt))
+                r.undecided(construct, 'emission `%s` not recognised' % short(ex.emit_node), lib.loc(comp, ex.emit_node))
         a, b = ex.pair.elts
         r.check(a.id == ex.row_idx.id and b.id == ex.col_idx.id, 'Munkres.compute: pair roles', '(row, col)',
                 'pairs are emitted as `%s` with the row index second' % unparse(ex.pair), lib.loc(comp, ex.pair))
@@ -353,6 +352,24 @@ def _cost_expr(r, fi, expr, p0, where):
 
 def _cost_matrix_shape(r, mfi):
     construct = 'make_cost_matrix: orientation'
+    rets_ = lib.returns_of(mfi.node)
+    comp = cm.value_of(mfi, rets_[0].value) if len(rets_) == 1 and rets_[0].value is not None else None
+    if isinstance(comp, ast.ListComp) and len(comp.generators) == 1 and isinstance(comp.elt, ast.ListComp) \
+            and len(comp.elt.generators) == 1:
+        og, ig = comp.generators[0], comp.elt.generators[0]
+        cell = comp.elt.elt
+        where = lib.loc(mfi, rets_[0])
+        if cm.is_name(og.iter, 'profit_matrix') and isinstance(og.target, ast.Name) and not og.ifs and not ig.ifs \
+                and cm.is_name(ig.iter, og.target.id) and isinstance(ig.target, ast.Name) \
+                and isinstance(cell, ast.Call) and cm.is_name(cell.func, 'inversion_function') and len(cell.args) == 1 \
+                and cm.is_name(cell.args[0], ig.target.id):
+            r.ok(construct, 'cost[k][l] = inversion_function(profit[k][l])', where)
+            return
+        if cm.is_call_to(og.iter, 'reversed') or cm.is_call_to(ig.iter, 'reversed'):
+            r.violation(construct, 'rows or columns are reversed while converting: cost[k][l] no longer belongs to input k / answer l', where)
+            return
+        r.undecided(construct, 'comprehension `%s` not recognised' % short(comp, 100), where)
+        return
     loops = [l for l in lib.loops_of(mfi.node) if isinstance(l, ast.For)]
     if len(loops) != 1 or not cm.is_name(loops[0].iter, 'profit_matrix') or not isinstance(loops[0].target, ast.Name):
         r.undecided(construct, 'row loop over profit_matrix not recognised', mfi.loc)
@@ -411,7 +428,7 @@ def d3_grouping(ctx, idx):
         r.check(cm.is_name(g.args[1], 'student_list'), 'ListGrader.perform_check: grouped list', 'the student inputs',
                 'groupify_list is applied to `%s`, not to the submitted list' % short(g.args[1]), lib.loc(pc, g))
         # what is ungrouped derives, in order, from the graded list
-        nested = cm.deref(pc, u.args[1])
+        nested = cm.value_of(pc, u.args[1])
         construct = 'ListGrader.perform_check: ungrouped list'
         graded = set()
         for c in lib.calls_named(pc.node, ('get_ordered_input_list', 'find_optimal_order')):
@@ -688,7 +705,7 @@ def _ungroupify(r, idx):
 
 # ------------------------------------------------------------------------------- D4
 def d4_best(ctx, idx):
-    r = ctx.rule('D4.BEST', 'every answer list is graded and the reported one has maximal total credit', floor=11)
+    r = ctx.rule('D4.BEST', 'every answer list is graded and the reported one has maximal total credit', floor=10)
     with r:
         ck = idx.func(LGC + '.check')
         selfn = ck.params[0]
@@ -713,6 +730,8 @@ def d4_best(ctx, idx):
             else:
                 r.undecided(construct, '`%s`' % short(comp, 100), lib.loc(ck, comp))
         gbs = lib.calls_named(ck.node, 'get_best_result')
+        if not gbs and cm.calls_unreviewed(idx, ck.node):
+            raise AnalysisError('ListGrader.check: get_best_result not found; un-inlined helpers %s are called' % cm.calls_unreviewed(idx, ck.node))
         if not gbs:
             r.violation('ListGrader.check: best result', 'get_best_result is no longer called: with several alternative answer lists the '
                         'reported list is not chosen by total credit (returns `%s`)'
@@ -826,14 +845,38 @@ def _best(r, idx):
                     if lib.loop_has_early_exit(lp):
                         r.violation(construct, 'the fill loop can be left early: later grades stay 0', lib.loc(fi, lp))
     # every return hands back an element of results inside the arg-max set
-    culled = [(k, v) for k, v in env.items() if isinstance(v, ast.ListComp) and any(cm.is_call_to(g.iter, 'enumerate') for g in v.generators)]
+    culled = [(k, v) for k, v in env.items() if isinstance(v, ast.ListComp) and len(v.generators) == 1 and
+              (any(cm.is_call_to(g.iter, 'enumerate') for g in v.generators) or cm.is_name(v.generators[0].iter, best_name))]
     culled_ok = {}
     for k, v in culled:
         g = v.generators[0]
+        if cm.is_name(g.iter, best_name):
+            # [results[i] for i in best_results]
+            good = isinstance(g.target, ast.Name) and not g.ifs and nf.match('results[%s]' % g.target.id, v.elt) is not None
+            culled_ok[k] = (good, v)
+            continue
         good = len(v.generators) == 1 and cm.is_call_to(g.iter, 'enumerate', 1) and cm.is_name(g.iter.args[0], 'results') \
             and isinstance(g.target, ast.Tuple) and len(g.target.elts) == 2 and cm.is_name(v.elt, g.target.elts[1].id) \
             and len(g.ifs) == 1 and nf.match('%s in %s' % (g.target.elts[0].id, best_name), g.ifs[0]) is not None
         culled_ok[k] = (good, v)
+    # locals that live in the index space of the arg-max *subset* (derived from data restricted by best_results)
+    subset = set()
+    changed = True
+    while changed:
+        changed = False
+        for n in walk_own(fi.node):
+            tgt, src = None, None
+            if isinstance(n, ast.Assign) and len(n.targets) == 1 and isinstance(n.targets[0], ast.Name):
+                tgt, src = n.targets[0].id, n.value
+            elif isinstance(n, ast.For) and isinstance(n.target, ast.Name):
+                tgt, src = n.target.id, n.iter
+            if tgt is None or tgt in subset or tgt == best_name:
+                continue
+            names = {x.id for x in ast.walk(src) if isinstance(x, ast.Name)}
+            if best_name in names or names & subset:
+                subset.add(tgt)
+                changed = True
+    ok_kinds = {}
     for ret in lib.returns_of(fi.node):
         v = ret.value
         where = lib.loc(fi, ret)
@@ -845,21 +888,27 @@ def _best(r, idx):
         guards = cm.guards_of(ret, stop=fi.node)
         if base == 'results':
             if nf.match('%s[_K]' % best_name, key) is not None:
-                r.ok(construct, 'index drawn from the arg-max set', where)
+                ok_kinds.setdefault('results[best[k]]', ('index drawn from the arg-max set', where))
             elif isinstance(key, ast.Constant):
                 single = any(nf.match('len(results) == 1', g) is not None for g in guards)
                 if single and key.value in (0, -1):
-                    r.ok(construct, 'the only result', where)
+                    ok_kinds.setdefault('only result', ('the only result', where))
                 else:
                     r.violation(construct, 'a fixed element of results is returned%s: with several answer lists the reported list is not '
                                 'one with maximal total credit' % (' under `%s`' % ' and '.join(short(g) for g in guards) if guards else ''),
                                 where, expected='results[best_results[k]]', found=short(v))
+            elif {x.id for x in ast.walk(key) if isinstance(x, ast.Name)} & subset:
+                dep = sorted({x.id for x in ast.walk(key) if isinstance(x, ast.Name)} & subset)
+                r.violation(construct, 'the full list `results` is indexed with `%s`, a position computed among the best-scoring subset only '
+                            '(%s derive from data restricted by %s): position k of the subset is not position k of results, so a list '
+                            'that is not among the best (or the wrong one of the best) is reported' % (short(key), ', '.join(dep), best_name),
+                            where, expected='results[%s[k]] or an element of the culled list' % best_name, found=short(v))
             else:
                 r.undecided(construct, 'index `%s` not traced to the arg-max set' % short(key), where)
         elif base in culled_ok:
             good, cv = culled_ok[base]
             if good:
-                r.ok(construct, 'element of the results filtered by membership in the arg-max set', where)
+                ok_kinds.setdefault('culled[k]', ('element of the results restricted to the arg-max set', where))
             else:
                 g = cv.generators[0]
                 if not g.ifs:
@@ -873,142 +922,219 @@ def _best(r, idx):
                         r.undecided(construct, 'filter of `%s` not recognised' % base, lib.loc(fi, cv))
         else:
             r.undecided(construct, 'base list `%s` unknown' % base, where)
+    for kind, (text, where) in sorted(ok_kinds.items()):
+        r.ok('get_best_result: return of kind %s' % kind, text, where)
     cfg = cfg_of(fi.node)
     falls = [p for p, lab in cfg.exit_return.preds if not (p.kind == 'stmt' and isinstance(p.ast, ast.Return))]
     r.check(not falls, 'get_best_result: fall-through', 'every path returns a result', 'a path falls off the end and returns None', fi.loc)
 
 
 # ------------------------------------------------------------------------------- D5
+def _expand_paths(idx, stmts, env, depth=0):
+    """decision paths of stmts (search loops turned into conditions) with calls of un-inlined helpers expanded.
+    -> [(guards, effects, leaf_kind)]"""
+    out = []
+    helpers = {q.split('.')[-1]: q for q in (getattr(idx, 'unreviewed', []) or [])}
+    for p in nf.decision_paths(cm.search_loops_to_conditions(stmts), env=env):
+        partial = [(list(p.guards), [], p.leaf.kind)]
+        for e in p.effects:
+            call = e.value if isinstance(e, ast.Expr) and isinstance(e.value, ast.Call) else None
+            name = nf.callee_name(call) if call is not None else None
+            if call is not None and name in helpers and depth < 2 and idx.has_func(helpers[name]):
+                callee = idx.func(helpers[name])
+                params = list(callee.params)
+                if callee.cls is not None and not callee.is_static and params:
+                    params = params[1:]
+                if len(params) != len(call.args) or call.keywords:
+                    raise AnalysisError('call `%s` of helper %s cannot be bound' % (short(call), name))
+                sub = _expand_paths(idx, callee.node.body, dict(zip(params, call.args)), depth + 1)
+                nxt = []
+                for g, ef, kind in partial:
+                    for g2, ef2, kind2 in sub:
+                        nxt.append((g + g2, ef + ef2, 'raise' if kind2 == 'raise' else kind))
+                partial = nxt
+            else:
+                partial = [(g, ef + [e], kind) for g, ef, kind in partial]
+        out.extend(partial)
+    return out
+
+
+def _perfect_atom(g, lists):
+    """('perfect'|'imperfect'|'WRONG', text) if g is a quantifier over the entries about ok is True; else None."""
+    if not (isinstance(g, ast.Call) and nf.callee_name(g) in ('all', 'any') and len(g.args) == 1
+            and isinstance(g.args[0], (ast.GeneratorExp, ast.ListComp)) and len(g.args[0].generators) == 1):
+        return None
+    gen = g.args[0]
+    gg = gen.generators[0]
+    if gg.ifs or not isinstance(gg.target, ast.Name) or nf.match("_B['input_list']", gg.iter) is None:
+        return None
+    if lists and not any(nf.equal(nf.canon(gg.iter), l) for l in lists):
+        return None
+    ev = gg.target.id
+    elt = nf.canon(gen.elt)
+    is_true = any(nf.match(q % ev, elt) is not None for q in ("%s['ok'] is True", "%s['ok'] == True", "%s['grade_decimal'] == 1"))
+    not_true = any(nf.match(q % ev, elt) is not None for q in ("%s['ok'] is not True", "%s['ok'] != True", "%s['grade_decimal'] != 1",
+                                                              "%s['grade_decimal'] < 1"))
+    name = nf.callee_name(g)
+    if name == 'all' and is_true:
+        return 'perfect', None
+    if name == 'any' and not_true:
+        return 'imperfect', None
+    if name == 'any' and is_true:
+        return 'WRONG', 'one fully correct entry is enough to keep all credit (`any`): the list must be perfect'
+    if name == 'all' and not_true:
+        return 'WRONG', 'the list counts as imperfect only when *every* entry is imperfect'
+    if nf.match("%s['ok']" % ev, elt) is not None:
+        return 'WRONG', "entries count as perfect when entry['ok'] is merely truthy: 'partial' passes, so partly correct lists keep their credit"
+    return None
+
+
 def d5_zeroing(ctx, idx):
     r = ctx.rule('D5.ZERO', 'partial_credit=False: unless every entry is fully correct every entry gets ok=False and grade 0', floor=5)
     with r:
         ck = idx.func(LGC + '.check')
         gbs = lib.calls_named(ck.node, 'get_best_result')
-        rets_ = lib.returns_of(ck.node)
-        gb = gbs[0] if len(gbs) == 1 else (cm.deref(ck, rets_[0].value) if len(rets_) == 1 else None)
-        stores = {}
-        for s in walk_own(ck.node):
-            if isinstance(s, ast.Assign) and len(s.targets) == 1 and cm.sub_key(s.targets[0]) in ('ok', 'grade_decimal') \
-                    and isinstance(s.targets[0].value, ast.Name):
-                stores.setdefault(cm.sub_key(s.targets[0]), []).append(s)
-        if not stores:
-            r.violation('ListGrader.check: zeroing', "no store to entry['ok'] / entry['grade_decimal'] is left: partial_credit=False "
-                        "no longer zeroes anything", ck.loc)
+        body = list(ck.node.body)
+        tail = body
+        if len(gbs) == 1:
+            top = [s for s in body if any(n is gbs[0] for n in ast.walk(s))]
+            if len(top) == 1:
+                tail = body[[i for i, s in enumerate(body) if s is top[0]][0] + 1:]
+        paths = [pp for pp in _expand_paths(idx, tail, {}) if pp[2] != 'raise']
+        if not paths:
+            raise AnalysisError('ListGrader.check: no returning path after the selection of the best result')
+        understood = not cm.calls_unreviewed(idx, ck.node) or all(
+            not cm.calls_unreviewed(idx, e) for g, ef, k in paths for e in ef)
+
+        def zero_loops(effects):
+            out = []
+            for e in effects:
+                if isinstance(e, ast.For) and isinstance(e.target, ast.Name):
+                    st = [s for s in ast.walk(e) if isinstance(s, ast.Assign) and len(s.targets) == 1
+                          and cm.sub_key(s.targets[0]) in ('ok', 'grade_decimal') and cm.is_name(s.targets[0].value, e.target.id)]
+                    if st:
+                        out.append((e, st))
+            return out
+        all_loops = [(g, zl) for g, ef, k in paths for zl in zero_loops(ef)]
+        if not all_loops:
+            opaque = [e for g, ef, k in paths for e in ef if isinstance(e, (ast.For, ast.While, ast.Try, ast.With))]
+            if understood and not opaque:
+                r.violation('ListGrader.check: zeroing', "after the best result is selected nothing stores entry['ok'] / entry['grade_decimal']: "
+                            "partial_credit=False no longer zeroes anything", ck.loc)
+            else:
+                r.undecided('ListGrader.check: zeroing', 'no zeroing loop recognised (un-inlined helpers: %s)' % cm.calls_unreviewed(idx, ck.node), ck.loc)
             return
-        loops = set()
-        for key, want, alt in (('ok', False, 'ok=False'), ('grade_decimal', 0, 'grade_decimal=0')):
-            construct = "ListGrader.check: zeroing entry['%s']" % key
-            lst = stores.get(key, [])
-            if not lst:
-                other = 'grade_decimal' if key == 'ok' else 'ok'
-                r.violation(construct, "entries get %s=%s but their '%s' is left untouched: the boxes show an inconsistent result "
-                            "(%s)" % (other, 'False' if other == 'ok' else '0', key,
-                                      'green tick with grade 0' if key == 'ok' else 'marked wrong but still counted'), ck.loc,
-                            expected=alt)
+        # the loop(s): both stores, right constants, full, unconditional
+        lists = []
+        seen = set()
+        for g, (loop, stores) in all_loops:
+            k = ast.dump(loop)
+            if k in seen:
                 continue
-            for s in lst:
-                v = nf.const_value(s.value, '?')
-                lp = [a for a in ancestors(s) if isinstance(a, ast.For)]
-                if not lp:
-                    r.undecided(construct, 'store outside a loop', lib.loc(ck, s))
+            seen.add(k)
+            where = ck.loc
+            lists.append(nf.canon(loop.iter))
+            by = {}
+            for st in stores:
+                by.setdefault(cm.sub_key(st.targets[0]), []).append(st)
+            for key, want, alt in (('ok', False, 'ok=False'), ('grade_decimal', 0, 'grade_decimal=0')):
+                construct = "ListGrader.check: zeroing entry['%s']" % key
+                if key not in by:
+                    other = 'grade_decimal' if key == 'ok' else 'ok'
+                    r.violation(construct, "entries get %s=%s but their '%s' is left untouched: the boxes show an inconsistent result "
+                                "(%s)" % (other, 'False' if other == 'ok' else '0', key,
+                                          'green tick with grade 0' if key == 'ok' else 'marked wrong but still counted'), where, expected=alt)
                     continue
-                loops.add(lp[0])
-                if not (cm.is_name(s.targets[0].value, lp[0].target.id if isinstance(lp[0].target, ast.Name) else None)):
-                    r.undecided(construct, 'store `%s` does not address the loop entry' % short(s), lib.loc(ck, s))
-                elif isinstance(s.value, ast.Constant) and v == want and type(v) is type(want):
-                    r.ok(construct, alt, lib.loc(ck, s))
-                elif isinstance(s.value, ast.Constant):
-                    r.violation(construct, "entries are set to %s=%r instead of %r" % (key, v, want), lib.loc(ck, s), expected=alt, found=short(s))
-                else:
-                    r.undecided(construct, 'stored value `%s`' % short(s.value), lib.loc(ck, s))
-        if len(loops) != 1:
-            r.undecided('ListGrader.check: zeroing loop', 'stores spread over %d loops' % len(loops), ck.loc)
-            return
-        loop = loops.pop()
-        construct = 'ListGrader.check: zeroing loop'
-        it = loop.iter
-        best = None
-        m = nf.match("_B['input_list']", it)
-        if m is None or not (cm.deref(ck, m['_B']) is gb):
-            r.undecided(construct, 'loop over `%s` is not over the selected result\'s input_list' % short(it), lib.loc(ck, loop))
-        else:
-            best = m['_B']
+                for st in by[key]:
+                    v = nf.const_value(st.value, '?')
+                    if isinstance(st.value, ast.Constant) and v == want and type(v) is type(want):
+                        r.ok(construct, alt, where)
+                    elif isinstance(st.value, ast.Constant):
+                        r.violation(construct, "entries are set to %s=%r instead of %r" % (key, v, want), where, expected=alt, found=short(st))
+                    else:
+                        r.undecided(construct, 'stored value `%s`' % short(st.value), where)
+            construct = 'ListGrader.check: zeroing loop'
+            if nf.match("_B['input_list']", loop.iter) is None:
+                r.undecided(construct, 'loop over `%s` is not over an input_list' % short(loop.iter), where)
+                continue
             ex = lib.loop_has_early_exit(loop)
-            r.check(not ex, construct, 'visits every entry', 'the loop is left early (`%s`): entries after that point keep their credit'
-                    % (short(ex[0]) if ex else ''), lib.loc(ck, loop))
-            inner_if = [a for a in ancestors(stores.get('ok', stores.get('grade_decimal'))[0]) if isinstance(a, ast.If) and
-                        any(a is x for x in ast.walk(loop))]
-            if inner_if:
+            inner = [a for a in ast.walk(loop) if isinstance(a, ast.If) and any(s2 in list(ast.walk(a)) for s2 in stores)]
+            if ex:
+                r.violation(construct, 'the loop is left early (`%s`): entries after that point keep their credit' % short(ex[0]), where)
+            elif inner:
                 r.violation(construct, 'entries are zeroed only under `%s`: some entries keep their credit although the list is not perfect'
-                            % short(inner_if[0].test), lib.loc(ck, inner_if[0]))
-        # guard of the loop
+                            % short(inner[0].test), where)
+            else:
+                r.ok(construct, 'visits every entry unconditionally', where)
+        # the decision, evaluated over partial_credit x perfect
+        wrong = []
+        table = {}
+        unknown_guards = set()
+        for g, ef, kind in paths:
+            atoms = []
+            for x in g:
+                neg = isinstance(x, ast.UnaryOp) and isinstance(x.op, ast.Not)
+                core = x.operand if neg else x
+                if lib.is_config(core, 'partial_credit'):
+                    atoms.append(('pc', not neg))
+                    continue
+                pa = _perfect_atom(core, lists)
+                if pa is None:
+                    atoms.append(('?', short(x)))
+                    unknown_guards.add(short(x))
+                elif pa[0] == 'WRONG':
+                    wrong.append(pa[1])
+                    atoms.append(('?', short(x)))
+                else:
+                    atoms.append(('perfect', (pa[0] == 'perfect') != neg))
+            for pc in (True, False):
+                for perfect in (True, False):
+                    if all(v == {'pc': pc, 'perfect': perfect}[a] for a, v in atoms if a != '?'):
+                        table.setdefault((pc, perfect), []).append((bool(zero_loops(ef)), any(a == '?' for a, v in atoms), g))
+        where = ck.loc
+        for w in sorted(set(wrong)):
+            r.violation('ListGrader.check: zeroing condition (perfect)', w, where, expected="all(entry['ok'] is True ...)")
+        if wrong:
+            return
+
+        def verdict(cases, expect_zero):
+            """'ok' | ('viol', guards) | 'unknown'"""
+            res = 'ok'
+            for c in cases:
+                for z, unk, g in table.get(c, []):
+                    if z != expect_zero:
+                        if unk:
+                            res = 'unknown' if res == 'ok' else res
+                        else:
+                            return ('viol', g, c)
+                if c not in table:
+                    res = 'unknown'
+            return res
+        sw_on = verdict([(True, True), (True, False)], False)
+        target = verdict([(False, False)], True)
+        perf = verdict([(False, True)], False)
         construct = 'ListGrader.check: zeroing condition'
-        guards = []
-        for g in cm.guards_of(loop, stop=ck.node):
-            if isinstance(g, ast.Name):
-                g = nf.canon(cm.deref(ck, g))
-            elif isinstance(g, ast.UnaryOp) and isinstance(g.op, ast.Not) and isinstance(g.operand, ast.Name):
-                g = nf.negate(nf.canon(cm.deref(ck, g.operand)))
-            guards.append(g)
-        flat = []
-        for g in guards:
-            flat.extend(nf.conjuncts(nf.canon(g)))
-        pc = [g for g in flat if any(lib.is_config(n, 'partial_credit') for n in ast.walk(g))]
-        rest = [g for g in flat if g not in pc]
-        where = lib.loc(ck, loop)
-        if len(pc) != 1:
-            r.violation(construct, 'zeroing does not depend on config[\'partial_credit\'] (guards: %s)' % (' and '.join(short(g) for g in flat) or 'none'), where) \
-                if not pc else r.undecided(construct, 'several partial_credit guards', where)
+        if isinstance(sw_on, tuple):
+            r.violation(construct + ' (switch)', 'entries are zeroed although partial_credit is true (path: %s)' % (
+                ' and '.join(short(x) for x in sw_on[1]) or 'unconditional'), where, expected="only if not self.config['partial_credit']")
+        elif isinstance(target, tuple) and not isinstance(perf, tuple) and not any(
+                z for z, unk, g in table.get((False, False), [])) and any(z for z, unk, g in table.get((True, False), [])):
+            r.violation(construct + ' (switch)', 'entries are zeroed when partial_credit is *true* and kept when it is false', where)
+        elif sw_on == 'unknown':
+            r.undecided(construct + ' (switch)', 'guards not evaluable: %s' % sorted(unknown_guards), where)
         else:
-            g = pc[0]
-            if isinstance(g, ast.UnaryOp) and isinstance(g.op, ast.Not) and lib.is_config(g.operand, 'partial_credit'):
-                r.ok(construct + ' (switch)', 'only when partial_credit is false', where)
-            elif lib.is_config(g, 'partial_credit'):
-                r.violation(construct + ' (switch)', 'entries are zeroed when partial_credit is *true* and kept when it is false', where,
-                            expected="not self.config['partial_credit']", found=short(g))
-            else:
-                r.undecided(construct + ' (switch)', 'guard `%s`' % short(g), where)
-        if len(rest) != 1:
-            if not rest:
-                r.violation(construct + ' (perfect)', 'with partial_credit=False entries are zeroed even when every entry is fully correct', where)
-            else:
-                r.undecided(construct + ' (perfect)', 'guards %s' % [short(g) for g in rest], where)
-            return
-        g = rest[0]
-        neg = isinstance(g, ast.UnaryOp) and isinstance(g.op, ast.Not)
-        core = g.operand if neg else g
-        if not (isinstance(core, ast.Call) and nf.callee_name(core) in ('all', 'any') and len(core.args) == 1
-                and isinstance(core.args[0], (ast.GeneratorExp, ast.ListComp))):
-            r.undecided(construct + ' (perfect)', 'guard `%s`' % short(g), where)
-            return
-        gen = core.args[0]
-        gg = gen.generators[0]
-        ev = gg.target.id if isinstance(gg.target, ast.Name) else None
-        src_ok = best is not None and nf.match("_B['input_list']", gg.iter) is not None and nf.equal(nf.canon(gg.iter.value), nf.canon(best))
-        elt = nf.canon(gen.elt)
-        is_true = any(nf.match(p % ev, elt) is not None for p in ("%s['ok'] is True", "%s['ok'] == True", "%s['grade_decimal'] == 1"))
-        not_true = any(nf.match(p % ev, elt) is not None for p in ("%s['ok'] is not True", "%s['ok'] != True", "%s['grade_decimal'] != 1",
-                                                                    "%s['grade_decimal'] < 1"))
-        name = nf.callee_name(core)
-        if gg.ifs or len(gen.generators) != 1 or not src_ok:
-            r.undecided(construct + ' (perfect)', 'quantifier `%s` does not range over all entries of the selected result' % short(core), where)
-        elif (name == 'all' and is_true and neg) or (name == 'any' and not_true and not neg):
-            r.ok(construct + ' (perfect)', 'zeroed unless every entry has ok is True', where)
-        elif (name == 'all' and is_true and not neg) or (name == 'any' and not_true and neg):
-            r.violation(construct + ' (perfect)', 'the test is inverted: a perfect list is zeroed and an imperfect one keeps its credit', where,
-                        expected='not all(entry[\'ok\'] is True ...)', found=short(g))
-        elif name == 'any' and is_true:
-            r.violation(construct + ' (perfect)', 'one fully correct entry is enough to keep all credit (`any`): the list must be perfect',
-                        where, expected='all(...)', found=short(g))
-        elif nf.match("%s['ok']" % ev, elt) is not None:
-            r.violation(construct + ' (perfect)', "entries count as perfect when entry['ok'] is merely truthy: 'partial' passes, so partly "
-                        "correct lists keep their credit", where, expected="entry['ok'] is True", found=short(gen.elt))
+            r.ok(construct + ' (switch)', 'never when partial_credit is true', where)
+        if isinstance(perf, tuple) or isinstance(target, tuple):
+            both = isinstance(perf, tuple) and isinstance(target, tuple)
+            r.violation(construct + ' (perfect)', 'with partial_credit=False %s' % (
+                'the test is inverted: a perfect list is zeroed and an imperfect one keeps its credit' if both else
+                'a list in which every entry is fully correct is zeroed too' if isinstance(perf, tuple) else
+                'a list with an imperfect entry keeps its credit (path: %s)' % (' and '.join(short(x) for x in target[1]) or 'unconditional')),
+                where, expected="zero iff not all(entry['ok'] is True ...)")
+        elif perf == 'unknown' or target == 'unknown':
+            r.undecided(construct + ' (perfect)', 'guards not evaluable: %s' % sorted(unknown_guards), where)
         else:
-            res = nf.classify("%s['ok'] is True" % ev, elt)
-            if isinstance(res, tuple):
-                r.violation(construct + ' (perfect)', res[1], where)
-            else:
-                r.undecided(construct + ' (perfect)', 'element `%s`' % short(gen.elt), where)
+            r.ok(construct + ' (perfect)', 'zeroed exactly when some entry is not ok is True', where)
 
 
 # ------------------------------------------------------------------------------- D6
@@ -1020,6 +1146,8 @@ def d6_order(ctx, idx):
         grading = lib.calls_named(pc.node, ('get_ordered_input_list', 'find_optimal_order', 'groupify_list'))
         if not grading:
             raise AnalysisError('perform_check: grading calls not found')
+        if not v and cm.calls_unreviewed(idx, pc.node):
+            raise AnalysisError('perform_check: validate_submission not found; un-inlined helpers %s are called' % cm.calls_unreviewed(idx, pc.node))
         if not v:
             r.violation('ListGrader.perform_check: validate_submission', 'the number of inputs is no longer checked against the answers / '
                         'grouping: a mismatch is graded on a truncated zip or fails with IndexError instead of ConfigError', pc.loc)
@@ -1091,6 +1219,7 @@ MUTANTS = [
     Mutant('best-culled-inverted', LG, "for index, result in enumerate(results) if index in best_results]", "for index, result in enumerate(results) if index not in best_results]", 'D4'),
     Mutant('best-culled-unfiltered', LG, "for index, result in enumerate(results) if index in best_results]", "for index, result in enumerate(results)]", 'D4'),
     Mutant('best-table-transposed', LG, "                full_grades[index, qnum] = grade['grade_decimal']", "                full_grades[qnum, index] = grade['grade_decimal']", 'D4'),
+    Mutant('best-subset-index-on-full-list', LG, "                index = np.where(in_the_running)[0][0]\n                return culled_results[index]", "                return results[np.where(in_the_running)[0][0]]", 'D4'),
     Mutant('only-first-answer-list', LG, "for answer_list in answers]\n        best_result", "for answer_list in answers[:1]]\n        best_result", 'D4'),
     Mutant('best-not-selected', LG, "        best_result = self.get_best_result(results)", "        best_result = results[0]", 'D4'),
     # D5
@@ -1127,6 +1256,18 @@ BENIGN = [
            "            if any(entry['ok'] is not True for entry in best_result['input_list']):"),
     Benign('zeroing-stores-reordered', LG, "                    entry['ok'] = False\n                    entry['grade_decimal'] = 0\n",
            "                    entry['grade_decimal'] = 0\n                    entry['ok'] = False\n"),
+    Benign('culled-by-indexing', LG, "culled_results = [result for index, result in enumerate(results) if index in best_results]", "culled_results = [results[index] for index in best_results]"),
+    Benign('matrix-by-row-loop', LG, "    result_matrix = [[check(a, i) for a in answers] for i in student_list]\n",
+           "    result_matrix = []\n    for i in student_list:\n        result_matrix.append([check(a, i) for a in answers])\n"),
+    Benign('zeroing-in-helper-with-for-else', LG,
+           "            perfect = all(entry['ok'] is True for entry in best_result['input_list'])\n            if not perfect:\n                for entry in best_result['input_list']:\n                    entry['ok'] = False\n                    entry['grade_decimal'] = 0\n\n        return best_result\n",
+           "            self._zero_unless_perfect(best_result['input_list'])\n\n        return best_result\n\n    @staticmethod\n    def _zero_unless_perfect(input_list):\n        for entry in input_list:\n            if entry['ok'] is not True:\n                break\n        else:\n            return\n        for entry in input_list:\n            entry['ok'] = False\n            entry['grade_decimal'] = 0\n"),
+    Benign('nested-by-accumulator', LG, "        nested = [\n            r['input_list'] if 'input_list' in r else r\n            for r in input_list\n        ]\n",
+           "        nested = []\n        for r in input_list:\n            if 'input_list' in r:\n                nested.append(r['input_list'])\n            else:\n                nested.append(r)\n"),
+    Benign('tiebreak-single-return', LG, "            if np.count_nonzero(in_the_running) == 1:\n                # Return the winner!\n                index = np.where(in_the_running)[0][0]\n                return culled_results[index]\n",
+           "            if np.count_nonzero(in_the_running) == 1:\n                break\n"),
+    Benign('pairs-by-comprehension', MK, "        results = []\n        for i in range(self.original_length):\n            for j in range(self.original_width):\n                if self.marked[i][j] == 1:\n                    results += [(i, j)]\n\n        return results\n",
+           "        return [(i, j) for i in range(self.original_length) for j in range(self.original_width) if self.marked[i][j] == 1]\n"),
     Benign('max-as-method', LG, "        max_score = np.max(scores)", "        max_score = scores.max()"),
     Benign('log-before-validation', LG, "        self.validate_submission(answers, student_list)\n\n        # Group the inputs",
            "        self.log('checking a list')\n        self.validate_submission(answers, student_list)\n\n        # Group the inputs"),
